@@ -50,8 +50,14 @@ def streams(seed, tier):
             cases.append(case((n + j) % 2, 2, n_draws, [st, lst, n, STEPS, [S(d) for d in EXEC_DENY]], tape(rng)))
         k += per_size
     cases.append(case(0, 2, 2, [state(), [], 0, STEPS, []], tape(rng)))
+    # new-name probabilities outside [0,1] and non-finite: `(p * 10000.0) as u32` saturates, it must not crash
+    for pn in (1.5, 2.0, -0.25, float("inf"), float("-inf"), float("nan"), 1e-9, 0.99999):
+        for n in (1, 2, 3, 9, 40):
+            for nb in (0, 1, 5):
+                st = state(bind=BINDS[nb], cfg=cfg(pnew=pn))
+                cases.append(case(n % 2, 2, n_draws, [st, [S("INTEGER.+")], n, STEPS, [S(d) for d in EXEC_DENY]], tape(rng)))
     out.append(Stream("exact-size", "rand", "rand.check", cases,
-                      "random_code_with_size for sizes 1..80 x instruction list {empty, one, full registry} x bindings {0,1,5} x new-name probability {0,.001,.5,1} (quick: 4 of the 36 combinations per size, rotating): valid_gen on every draw; every program printed, parsed back and executed", project=project))
+                      "random_code_with_size for sizes 1..80 x instruction list {empty, one, full registry} x bindings {0,1,5} x new-name probability {0,.001,.5,1} (quick: 4 of the 36 combinations per size, rotating) plus probabilities outside [0,1], infinite and NaN: valid_gen on every draw; every program printed, parsed back and executed", project=project))
     # upper bound
     cases, k = [], 0
     for m in range(0, 81):
